@@ -213,7 +213,12 @@ func (c *c03) Generate(cx *Ctx, chunk int) []*Item {
 		case 0: // two clauses
 			add([]*term.Term{term.C(":-", head, c03Body(b1)), term.C(":-", head, c03Body(b2))}, "pair-clauses")
 		case 1: // one clause with a top-level disjunction
-			add([]*term.Term{term.C(":-", head, term.C(";", c03Body(b1), shiftVars(c03Body(b2), 100, 2))), last}, "pair-disjunction")
+			left := c03Body(b1)
+			if left.IsCmp("->", 2) {
+				// (C -> T) ; R is an if-then-else: its else branch is not a top-level disjunct (a cut there is out of scope)
+				left = term.C(",", left, term.A("true"))
+			}
+			add([]*term.Term{term.C(":-", head, term.C(";", left, shiftVars(c03Body(b2), 100, 2))), last}, "pair-disjunction")
 		default: // three clauses
 			b3 := randBody(2)
 			add([]*term.Term{term.C(":-", head, c03Body(b1)), term.C(":-", head, c03Body(b2)), term.C(":-", head, c03Body(b3))}, "triple-clauses")
